@@ -186,7 +186,7 @@ def observe(ex):
     return {'status': ex.code, 'tag': ex.header('X-R'),
             'allow': set(x.strip() for x in allow.split(',') if x.strip()) if allow is not None else None,
             'location': ex.header('Location'), 'route_res': ex.header('X-Route-Res'), 'app_res': ex.header('X-App-Res'),
-            'rendered_by': ex.header('X-Rendered-By'), 'stamp': ex.header('X-Stamp'),
+            'rendered_by': ex.header('X-Rendered-By'), 'stamp': ex.header('X-Stamp'), 'route_mark': ex.header('X-Route-Mark'),
             'escaped': type(ex.escaped).__name__ if ex.escaped is not None else None}
 
 
